@@ -213,7 +213,7 @@ class CPSys:
                 "got": [self.got[t] for t in sorted(self.got)],
                 "runs": self.runs, "lk": lk}
 
-    def drain(self):
+    def drain(self, probe=True):
         guard = 0
         while True:
             guard += 1
@@ -242,6 +242,12 @@ class CPSys:
             s = self.slot(i)
             slots.append(s[1] if s[0] == "val" else 0)
         self.ev(e="quiesce", held=held, slots=slots, stuck=[t for t in self.pc if self.pc[t] != "idle"])
+        if probe and all(self.pc[t] == "idle" for t in self.pc):
+            # afterwards the attribute keeps working: one more sequential access of every instance is served
+            # from what is cached (or computed once if nothing is) -- judged by CPropObs like everything else
+            for i in sorted(self.insts):
+                self.apply("access", 1, i)
+                self.drain(probe=False)
 
     def cfg(self):
         return {"tasks": self.ntask, "insts": self.ninst, "lock": bool(self.uselock), "gsusp": self.gsusp, "exitsusp": bool(self.exitsusp)}
